@@ -813,6 +813,26 @@ def state_sweep_cases():
                            "pd": 0, "ops": [list(o) for o in pre] + [["payload"], ["tick"], ["payload"]]}
 
 
+def interleave_cases():
+    """A timed transition with one unrelated op interleaved at each position (completion tick vs interference-free baseline)."""
+    for typ in SERVICES:
+        system = typ in SYSTEM_SERVICES
+        for rd in (1, 2):
+            for x in (["payload"], ["req", "scan"], ["req", "start"], ["req", "pause"], ["req", "resume"]):
+                for pos in range(rd + 1):
+                    ticks = [["tick"]] * (rd + 2)
+                    ops = [["req", "restart"]] + ticks[:pos] + [x] + ticks[pos:]
+                    yield {"kind": "service", "type": typ, "declare": not system, "extra": [], "listener": False, "rd": rd, "pd": 0,
+                           "ops": [list(o) for o in ops]}
+    for typ in APPS:
+        for x in (["payload"], ["req", "execute"], ["req", "close"], ["install"], ["req", "scan"]):
+            for pos in range(3):
+                ticks = [["tick"]] * 4
+                ops = [["uninstall"], ["install"]] + ticks[:pos] + [x] + ticks[pos:]
+                yield {"kind": "application", "type": typ, "declare": typ in EXTRA_APPS, "extra": [], "listener": False, "rd": None,
+                       "pd": 0, "ops": [list(o) for o in ops]}
+
+
 # open findings whose exclusion-by-construction the generators switch on (carried in case["excl"] so that replays of the
 # findings themselves, which do not carry it, still reproduce)
 EXCLUDABLE = {"C13-nmap-uninstalled-crash"}
@@ -838,6 +858,7 @@ def worker(ctx: Ctx):
 
     enum_run(ctx, timing_cases(), run_case)
     enum_run(ctx, tag(state_sweep_cases()), run_case)
+    enum_run(ctx, tag(interleave_cases()), run_case)
     enum_run(ctx, tag(exhaustive_cases(depth)), run_case)
     ctx.extra["exhaustive"] = True
     ctx.extra["exhaustive_domain"] = (
